@@ -42,7 +42,7 @@ func (Prop) Describe(t vp.Tier) vp.Description {
 			"accounted memory is not expected to shrink when values become garbage (golua only releases what it pools), so no equality of usage is demanded, only the bound and monotonicity of kills",
 			"programs with a coroutine yielding inside a protected call are excluded (known finding coroutine-yield-across-context, see C05/C07)",
 		},
-		Floor: map[vp.Tier]int64{vp.Quick: 800, vp.Thorough: 15000}[t],
+		Floor: map[vp.Tier]int64{vp.Quick: 800, vp.Thorough: 7000}[t],
 	}
 }
 
